@@ -438,7 +438,11 @@ class ExtentDescriptor:
         self.sectors = int(self.sectors)
 
         if self.filename:
-            self.filename = self.filename.strip('"')
+            # Only remove the enclosing pair of quotes, the file name itself may start or end with a quote
+            if len(self.filename) >= 2 and self.filename[0] == self.filename[-1] == '"':
+                self.filename = self.filename[1:-1]
+            else:
+                self.filename = self.filename.strip('"')
 
         if self.start_sector:
             self.start_sector = int(self.start_sector)
